@@ -657,15 +657,40 @@ func (m *BVM) ContractOfFn(fn *ssa.Function) *Contract {
 	for fn.Parent() != nil {
 		fn = fn.Parent()
 	}
-	if fn.Signature.Recv() == nil {
+	contractOfType := func(t types.Type) *Contract {
+		if pt, ok := t.(*types.Pointer); ok {
+			t = pt.Elem()
+		}
+		if nt, ok := t.(*types.Named); ok && nt.Obj().Pkg() != nil && InModulePath(nt.Obj().Pkg().Path()) {
+			return m.ByType[nt.Obj().Name()]
+		}
 		return nil
 	}
-	rt := fn.Signature.Recv().Type()
-	if pt, ok := rt.(*types.Pointer); ok {
-		rt = pt.Elem()
-	}
-	if nt, ok := rt.(*types.Named); ok {
-		return m.ByType[nt.Obj().Name()]
+	if fn.Signature.Recv() != nil {
+		rt := fn.Signature.Recv().Type()
+		if ct := contractOfType(rt); ct != nil {
+			return ct
+		}
+		// a method of a context struct (parameter object of an extracted helper) that carries exactly one contract
+		if pt, ok := rt.(*types.Pointer); ok {
+			rt = pt.Elem()
+		}
+		if nt, ok := rt.(*types.Named); ok && nt.Obj().Pkg() != nil && InModulePath(nt.Obj().Pkg().Path()) && !nt.Obj().Exported() {
+			if st, ok := nt.Underlying().(*types.Struct); ok {
+				var found *Contract
+				n := 0
+				for i := 0; i < st.NumFields(); i++ {
+					if ct := contractOfType(st.Field(i).Type()); ct != nil {
+						found = ct
+						n++
+					}
+				}
+				if n == 1 {
+					return found
+				}
+			}
+		}
+		return nil
 	}
 	return nil
 }
@@ -681,4 +706,16 @@ func (m *BVM) EdgesIn(e *Entry) []*Edge {
 		}
 	}
 	return out
+}
+
+// EntryOfFn: the dispatchable entry whose function is fn, or nil.
+func (m *BVM) EntryOfFn(fn *ssa.Function) *Entry {
+	for _, ct := range m.Contracts {
+		for _, e := range ct.Entries {
+			if e.Fn == fn && e.Fn != nil {
+				return e
+			}
+		}
+	}
+	return nil
 }
